@@ -542,7 +542,7 @@ def oracle_ops(case, obs):
 CHECK = Check(
     id="C15",
     title="Phenotype/covariate files round-trip bit-exactly; table operations are exact",
-    theorems=["C15.parse_render", "C15.bad_rows_skipped_not_shifted", "C15.parsed_row_is_its_line", "C15.leading_comments_ignored", "C15.names_made_unique", "C15.repeated_name_made_unique", "C15.uniqNamesOld_collision_witness", "C15.decimal_reads_as_at_most_one_double", "C15.float_codec_contract", "C15.exact_value_reads_back", "C15.checked_token_reads_back_everywhere", "C15.bits_decode_canonical", "C15.value_handed_out_is_the_correct_reading", "C15R.every_decimal_has_exactly_one_reading", "C15R.certified_reader_is_total", "C09R.standardize_mean_zero", "C09R.standardize_var_one", "C09R.code_algorithm_is_standardize", "C09R.second_centring_is_identity"],
+    theorems=["C15.parse_render", "C15.bad_rows_skipped_not_shifted", "C15.parsed_row_is_its_line", "C15.leading_comments_ignored", "C15.names_made_unique", "C15.repeated_name_made_unique", "C15.uniqNamesOld_collision_witness", "C15.decimal_reads_as_at_most_one_double", "C15.float_codec_contract", "C15.exact_value_reads_back", "C15.checked_token_reads_back_everywhere", "C15.bits_decode_canonical", "C15.value_handed_out_is_the_correct_reading", "C15R.every_decimal_has_exactly_one_reading", "C15R.certified_reader_is_total", "C15R.float_codec_contract_total", "C09R.standardize_mean_zero", "C09R.standardize_var_one", "C09R.code_algorithm_is_standardize", "C09R.second_centring_is_identity"],
     imports=("HapModel", "HapReal"),
     build_targets=("HapModel", "HapReal"),
     sections=[
